@@ -209,6 +209,7 @@ type DirCase struct {
 	FromSub bool `json:"from_sub"`
 	AsStage bool `json:"as_stage"`
 	Tmpl    int  `json:"task_dir_form"` // 0 absolute literal, 1 {{.Root}}/… (project root only), 2 {{ .base }}/… task variable
+	Dot     int  `json:"dot,omitempty"` // 1: the stage dir is written ".", 2: the task dir is written "." (= the start directory, explicitly given)
 }
 
 func (c DirCase) canon() string { b, _ := json.Marshal(c); return "dir:" + string(b) }
@@ -218,7 +219,7 @@ func runDir(c DirCase, dir string) error {
 	for _, d := range []string{"home", "sub", "d_stage", "d_task", "d_ctx"} {
 		os.MkdirAll(filepath.Join(dir, d), 0o755)
 	}
-	line := `printf '%s=%%s\n' "$(pwd -P)"`
+	line := `printf '%s=%%s\n' "$(/bin/pwd -P)"`
 	task := gen.Map{
 		{K: "command", V: gen.List{fmt.Sprintf(line, "CMD1"), fmt.Sprintf(line, "CMD2")}},
 		{K: "before", V: gen.List{fmt.Sprintf(line, "BEFORE")}},
@@ -239,11 +240,17 @@ func runDir(c DirCase, dir string) error {
 		default:
 			task = task.Set("dir", filepath.Join(dir, "d_task"))
 		}
+		if c.Dot == 2 {
+			task = task.Set("dir", ".")
+		}
 	}
 	cfg = cfg.Set("tasks", gen.Map{{K: "tk", V: task}})
 	stage := gen.Map{{K: "task", V: "tk"}}
 	if c.Stage {
 		stage = stage.Set("dir", filepath.Join(dir, "d_stage"))
+		if c.Dot == 1 {
+			stage = stage.Set("dir", ".")
+		}
 	}
 	cfg = cfg.Set("pipelines", gen.Map{{K: "pp", V: gen.List{stage}}})
 	os.WriteFile(filepath.Join(dir, "t.yaml"), []byte(gen.YAML(cfg)), 0o644)
@@ -267,8 +274,14 @@ func runDir(c DirCase, dir string) error {
 	switch {
 	case c.Stage && c.AsStage:
 		want = filepath.Join(dir, "d_stage")
+		if c.Dot == 1 {
+			want = start // "." is a dir that was given: it wins over the task's and the context's
+		}
 	case c.Task:
 		want = filepath.Join(dir, "d_task")
+		if c.Dot == 2 {
+			want = start
+		}
 	case c.Ctx:
 		want = filepath.Join(dir, "d_ctx")
 	}
@@ -302,21 +315,27 @@ func TestDirs(t *testing.T) {
 						// property does not settle it; the task dir is rendered from a task variable there
 						continue
 					}
-					k++
-					if k%nsh != idx {
-						continue
-					}
-					dir := filepath.Join(root, fmt.Sprint("d", k))
-					os.MkdirAll(dir, 0o755)
-					drv.Eval(fmt.Sprintf("dir-levels=%d", bits(m)))
-					if bits(m) >= 2 {
-						drv.NonTrivial(c.canon())
-					}
-					drv.Sample(c)
-					err := runDir(c, dir)
-					os.RemoveAll(dir)
-					if err != nil {
-						drv.Fail(t, "dirs", "", c, "%v; case %s", err, c.canon())
+					for dot := 0; dot < 3; dot++ {
+						if dot == 1 && !(c.Stage && c.AsStage) || dot == 2 && (!c.Task || tmpl != 0) {
+							continue
+						}
+						c.Dot = dot
+						k++
+						if k%nsh != idx {
+							continue
+						}
+						dir := filepath.Join(root, fmt.Sprint("d", k))
+						os.MkdirAll(dir, 0o755)
+						drv.Eval(fmt.Sprintf("dir-levels=%d", bits(m)))
+						if bits(m) >= 2 {
+							drv.NonTrivial(c.canon())
+						}
+						drv.Sample(c)
+						err := runDir(c, dir)
+						os.RemoveAll(dir)
+						if err != nil {
+							drv.Fail(t, "dirs", "", c, "%v; case %s", err, c.canon())
+						}
 					}
 				}
 			}
